@@ -195,7 +195,7 @@ var oraclesOf = map[string][]string{
 	"C11": {"no-panic", "bounded-work", "bounded-alloc", "failed-open-releases", "no-silent-shortening", "decode-robust"},
 	"C12": {"no-aliasing", "content-equal", "contiguous-readable", "bounds", "codec-identity", "open-succeeds"},
 	"C13": {"dir-matches-metadata", "segment-id-unique", "handles-released"},
-	"C15": {"accepted-is-readable", "content-equal", "contiguous-readable", "bounds", "open-succeeds", "no-panic"},
+	"C15": {"accepted-is-readable", "within-limit-accepted", "content-equal", "contiguous-readable", "bounds", "open-succeeds", "no-panic"},
 	"C20": {"metrics-add-up", "no-panic"},
 }
 
@@ -623,17 +623,27 @@ func (ex *Exec) openWAL(g *Gen, codecID uint64, segSize int) (*wal.WAL, error) {
 	var w *wal.WAL
 	var err error
 	sf := segment.NewFiler(dir, vfs)
-	if codecID != 0 {
-		w, err = wal.Open(dir, wal.WithSegmentFiler(sf), wal.WithMetaStore(mw), wal.WithSegmentSize(segSize),
-			wal.WithLogger(hclog.NewNullLogger()), wal.WithMetricsCollector(ex.mc), wal.WithCodec(&testCodec{id: codecID}))
-	} else {
-		w, err = wal.Open(dir, wal.WithSegmentFiler(sf), wal.WithMetaStore(mw), wal.WithSegmentSize(segSize),
-			wal.WithLogger(hclog.NewNullLogger()), wal.WithMetricsCollector(ex.mc))
+	// (the option type is unexported: the slice type is inferred)
+	wopts := listOf(wal.WithSegmentFiler(sf), wal.WithMetaStore(mw), wal.WithSegmentSize(segSize), wal.WithMetricsCollector(ex.mc))
+	if !ex.cfg.DefaultLog {
+		wopts = append(wopts, wal.WithLogger(hclog.NewNullLogger()))
 	}
+	if codecID != 0 {
+		wopts = append(wopts, wal.WithCodec(&testCodec{id: codecID}))
+	}
+	w, err = wal.Open(dir, wopts...)
 	if err == nil {
 		ex.wals[dir] = w
 	}
 	return w, err
+}
+
+func listOf[T any](xs ...T) []T { return xs }
+
+func init() {
+	// Runs that open the WAL without WithLogger exercise its default
+	// (hclog.Default()); keep that default silent.
+	hclog.SetDefault(hclog.NewNullLogger())
 }
 
 // call runs fn (an API call into the code under test), converting a panic
@@ -1133,6 +1143,25 @@ func (ex *Exec) doAppend(op OpSpec) {
 		}
 		if e.Size >= ex.cfg.SegSize && err == nil {
 			ex.probes.Add("append_larger_than_segment_acked", 1)
+		}
+	}
+	if err != nil && !IsInjected(err) && !ex.faultedLifetime && bad == "" && ex.on("within-limit-accepted") {
+		// C15: sizes up to the documented maximum are stored. Judged on the encoded
+		// record, which is what the limit applies to.
+		within := true
+		for i, e := range es {
+			if e.Size < segment.MaxEntrySize-4096 {
+				continue
+			}
+			var buf bytes.Buffer
+			(&wal.BinaryCodec{}).Encode(logs[i], &buf)
+			if buf.Len() > segment.MaxEntrySize {
+				within = false
+			}
+		}
+		if within && ex.or.Rejected(mop) != "" {
+			ex.violate("within-limit-accepted", "refused-within-size-limit:"+errClass(err), "StoreLogs refused a legal batch whose entries all encode to at most %d bytes: %v", segment.MaxEntrySize, err)
+			return
 		}
 	}
 	if err == nil {
